@@ -117,7 +117,7 @@ CLAIMED = {
     text='Slice: the limit/eviction glue of mem_cache<Setup>. check_limits: afterwards the cache is empty or strictly below its limit (limit 0 = unlimited), exactly size_before - size_after nodes were deleted, and EVERY victim was the one the policy prescribes: '
          'the entry with the smallest deadline if that deadline has passed, otherwise the least recently used one (checked as the precondition of delete_node at each call, against a ghost oracle fixed at the start of every iteration whether or not the code looks at it). '
          'store: with a limit of n entries the cache never holds more than n after a store; the new entry goes to the FRONT of the LRU list (fetch moves a hit to the front as well, job mc_fetch). delete_node releases the node from all four structures; '
-         'the reported key and trigger counts equal the container cardinalities (representation invariant kept by every function).',
+         'the reported key and trigger counts equal the container cardinalities (representation invariant kept by every function). add_trigger (one more counted link, remembered by the node), nl_clear (everything emptied, both counters reset) and stats (reported counts = cardinalities) are under contract too.',
     note=TRUST + 'NOT covered: that the back of std::list is the least recently used entry is list semantics (front insertion on store/fetch and back eviction are under contract); the buddy/shmem allocator and "memory of removed entries is released" for the process-shared cache; '
          'not_enough_memory()/size_limit() are arbitrary (when memory pressure was reported the size bound is not claimed); statistics over histories. Observation: store() compares the ENTRY COUNT `size` with Setup::size_limit() (bytes/20) - the per-item size guard is ineffective.',
     design='4 (C07/C08)', technique='cbmc code contracts (dfcc) + loop contracts; policy oracle as ghost candidate + callee precondition; chunked solving'),
@@ -142,9 +142,9 @@ CLAIMED = {
     design='4 (C18)', technique='cbmc code contracts (dfcc) with a ghost file of arbitrary content; loop contract for read_all'),
  'C20': dict(
     text='Slice: booster::regex::match (both overloads) reports a match only if pcre_exec on the ANCHORED pattern compiled from "(?:p)\\z" succeeded with offsets 0..length of the subject (whole string, never a prefix), '
-         'and hands on exactly the offsets pcre reported for each group; url_dispatcher::dispatch executes the first handler in registration order whose patterns match, tries none after it, and returns false only if none matches.',
+         'and hands on exactly the offsets pcre reported for each group; url_dispatcher::dispatch executes the first handler in registration order whose patterns match, tries none after it, and returns false only if none matches. option::matches selects a handler only if the WHOLE path matched its pattern and, with a method filter, the whole request method equals the filter word or is matched by the filter expression as a whole (regex_match, never regex_search); nothing that matches is turned away.',
     note=TRUST + 'pcre_exec is a stub with the PCRE 8 API contract; that "(?:p)\\z" cannot match short of the end is PCRE semantics (assumed). options[i]->dispatch is an oracle array (<= 16 options). '
-         'Not covered: regex::assign, option::matches method filter, mount points, applications pool, url_mapper and the mapper/dispatcher round trip.',
+         'Not covered: mount points, applications pool, url_mapper and the mapper/dispatcher round trip.',
     design='4 (C20)', technique='cbmc code contracts (dfcc) + loop contracts with ghost-recorded pcre_exec arguments / dispatch oracle'),
  'C19': dict(
     text='The chunk reader/writer of cppcms::archive (next_chunk_size, read_chunk, read_chunk_as_string, write_chunk, eof) and the POD-vector load body are under contract: '
